@@ -9,6 +9,9 @@ from vlib.term import C, Nat, Some, opt
 
 HEADER = "From Coq Require Import ZArith List.\nFrom TV Require Import Common.Harness C13.Model C13.Law C13.Corr."
 CASE_T = "C13.Corr.case"
+HEADER_T = ("From Coq Require Import ZArith List.\n"
+            "From TV Require Import Common.Harness C13.Model C13.Law C13.Corr C13.CorrT.")
+CASE_T_T = "C13.CorrT.case"
 HEADER_L = ("From Coq Require Import ZArith List.\n"
             "From TV Require Import Common.Harness C13.Model C13.Law C13.Corr C13.CorrL.")
 CASE_T_L = "C13.CorrL.case"
@@ -66,8 +69,10 @@ def is_early(op):
 
 
 def who(op):
-    """Which object an operation acts on: "E" early instance, "B" second main instance, "" first main instance."""
-    return op[-1] if op[-1] in ("E", "B") else ""
+    """Which object an operation acts on: "E" early instance, "B" second main instance, "#i" object i of a
+    class-operation case, "" first main instance."""
+    t = op[-1]
+    return t if isinstance(t, str) and (t in ("E", "B") or t.startswith("#")) else ""
 
 
 def op_term(op):
@@ -103,6 +108,20 @@ def to_term_l(case, obs):
           C("mkObs", out_term(ob["out"]), opt(ob["stored"]), opt(ob["shadow"]), opt(ob["base"])), opt(ob["inst"]))
          for op, ob in zip(case["ops"], obs)]
     return (classes, Nat(case["cls"]), [(name_term(q), pol_term(p)) for q, p in case["listener"]], h)
+
+
+def to_term_t(case, obs):
+    """Cases with add_class_trait (C13/CorrT.v)."""
+    classes = [C("mkClass", [(name_term(n), pol_term(p)) for n, p in cd["decls"]], [Nat(b) for b in cd["bases"]])
+               for cd in case["classes"]]
+    h = []
+    for op, ob in zip(case["ops"], obs):
+        o = C("mkObs", out_term(ob["out"]), opt(ob["stored"]), opt(ob["shadow"]), opt(ob["base"]))
+        if op[0] == "AddClass":
+            h.append((C("TClass", Nat(op[3]), name_term(op[1]), pol_term(op[2])), o))
+        else:
+            h.append((C("TObj", Nat(int(op[-1][1:])), op_term(op)), o))
+    return (classes, [Nat(k) for k in case["objs"]], h)
 
 
 # ----- failure signatures ----------------------------------------------------
@@ -144,6 +163,17 @@ def key_fn(case, obs, step, clause):
     if case.get("nlate", 0) > 0 and not is_early(op) and any(
             is_early(e) and e[1] == op[1] and e[0] in ("Get", "Set", "Del") for e in case["ops"]):
         return "class-created-after-use-inherits-cached-wildcard-resolution"
+    if "objs" in case and op[0] in ("Get", "Set", "Del"):
+        # a wildcard added with add_class_trait after the name was resolved (cached) for a class
+        touched = False
+        for e in case["ops"][:step]:
+            if e[0] in ("Get", "Set", "Del") and e[1] == op[1]:
+                touched = True
+            elif e[0] == "AddClass" and touched and e[1].endswith("_") and op[1].startswith(e[1][:-1]):
+                return "runtime-wildcard-does-not-reach-cached-name"
+            elif e[0] == "AddClass" and touched and e[1] == op[1]:
+                # explicit name added to a base class: the subclass that has the name cached keeps the cached trait
+                return "runtime-class-trait-does-not-reach-cached-name"
     if clause == 99:
         return "trait-inheritance-not-by-mro"
     if op[0] == "Get" and clause in (21, 42, 51) and obs[step]["out"][0] == "Val":
@@ -438,6 +468,70 @@ def listener_corpus():
     return cs
 
 
+CLASS_POLS = [["Typed", "VInt", 7], ["Typed", "VStr", 102], ["Any", 5], ["ReadOnly"], ["Disallow"], ["Event"],
+              ["Constant", 3], ["Python"]]
+
+
+def classops_history(rnd, ctx, maxlen):
+    """add_class_trait of explicit names and wildcards (specific-then-general and general-then-specific) on a
+    single-inheritance chain with existing subclasses and existing instances; probes on all instances."""
+    root = rnd.choice([0, 0, 1, 2])
+    n = rnd.choice([1, 2, 2, 3])
+    classes = []
+    for i in range(n):
+        classes.append({"decls": gen_decls(rnd, ctx, 2), "bases": [root if i == 0 else NROOTS + i - 1]})
+    objs = [NROOTS + rnd.randrange(n) for _ in range(rnd.randint(1, 3))]
+    stem = rnd.choice(["c", "ab", "_c"])
+    wild = [stem + "_", stem + "a_", stem + "ab_", stem + "b_"]          # prefixes stem, stem+a, stem+ab, stem+b
+    names = [stem + "abx", stem + "ax", stem + "x", stem + "ab", stem + "a", stem + "bx", "zz"]
+    ops = []
+    for _ in range(rnd.randint(4, maxlen)):
+        r = rnd.random()
+        if r < 0.22:
+            op = ["AddClass", rnd.choice(wild), rnd.choice(CLASS_POLS), NROOTS + rnd.randrange(n)]
+            ctx.count("classop:add-wildcard")
+        elif r < 0.30:
+            op = ["AddClass", rnd.choice(names), rnd.choice(CLASS_POLS), NROOTS + rnd.randrange(n)]
+            ctx.count("classop:add-explicit")
+        else:
+            nm = rnd.choice(names)
+            q = rnd.random()
+            base = ["Get", nm] if q < 0.4 else ["Set", nm, rnd.choice(VALUES)] if q < 0.85 else \
+                ["Del", nm] if q < 0.92 else ["Add", nm, rnd.choice(CLASS_POLS)] if q < 0.96 else ["Rem", nm]
+            op = base + ["#%d" % rnd.randrange(len(objs))]
+            ctx.count("classop:" + base[0])
+        ops.append(op)
+    return {"classes": classes, "objs": objs, "cls": objs[0], "ops": ops, "kind": "classops"}
+
+
+def classops_corpus():
+    """The demo of seeded change C13-t2 (specific wildcard first, general second; a class with a declared
+    wildcard and a subclass; a later, shorter Disallow wildcard) and the reverse orders."""
+    I, S, RO, D = ["Typed", "VInt", 7], ["Typed", "VStr", 102], ["ReadOnly"], ["Disallow"]
+    cs = []
+    for root in (0, 1, 2):
+        for first, second in ((["cab_", I], ["c_", S]), (["c_", S], ["cab_", I]), (["cab_", I], ["c_", D]),
+                              (["ca_", RO], ["c_", I])):
+            cs.append({"classes": [{"decls": [], "bases": [root]}, {"decls": [], "bases": [3]}], "objs": [3, 4, 3],
+                       "cls": 3, "kind": "classops-corpus",
+                       "ops": [["Get", "cax", "#2"], ["AddClass"] + first + [3], ["AddClass"] + second + [3],
+                               ["Get", "cabx", "#0"], ["Set", "cabx", 101, "#0"], ["Set", "cabx", 5, "#0"], ["Get", "cx", "#0"],
+                               ["Set", "caby", 101, "#1"], ["Set", "caby", 6, "#1"], ["Set", "caby", 1, "#1"],
+                               ["Get", "cy", "#1"], ["Get", "cax", "#2"], ["Set", "cax", 101, "#2"],
+                               ["AddClass"] + second + [3], ["AddClass", "cq", I, 3], ["Get", "cq", "#1"],
+                               ["AddClass", "cq", S, 4], ["AddClass", "cabx", I, 3]]})
+    # explicit name added to the base after the subclass has the name cached (listed finding)
+    cs.append({"classes": [{"decls": [], "bases": [0]}, {"decls": [], "bases": [3]}], "objs": [4, 3], "cls": 4,
+               "kind": "classops-corpus",
+               "ops": [["Get", "zz", "#0"], ["AddClass", "zz", S, 3], ["Get", "zz", "#0"], ["Get", "zz", "#1"],
+                       ["Set", "zz", 1, "#1"], ["AddClass", "zz", I, 4]]})
+    cs.append({"classes": [{"decls": [["ca_", RO]], "bases": [1]}, {"decls": [], "bases": [3]}], "objs": [3, 4], "cls": 3,
+               "kind": "classops-corpus",
+               "ops": [["AddClass", "c_", I, 3], ["Set", "cax", 101, "#0"], ["Set", "cax", 102, "#0"], ["Get", "cax", "#0"],
+                       ["Get", "cz", "#0"], ["Set", "cay", 101, "#1"], ["Set", "cay", 102, "#1"], ["Get", "cz", "#1"]]})
+    return cs
+
+
 def two_instance_history(h, rnd, ctx, maxlen):
     """Operations interleaved on two instances of one class: shared cache, separate traits and values."""
     names = focus_names(h, rnd)
@@ -559,14 +653,14 @@ def run(ctx):
         ctx.sample(c)
     # batches of 7 shards: a coqc on a 1000-case shard needs up to 1.8 GB, and the machine is shared
     BATCH = 7000
-    main_cases = [] if (ctx.replay and "listener" in cases[0]) else cases
+    main_cases = [] if (ctx.replay and ("listener" in cases[0] or "objs" in cases[0])) else cases
     for b in range(0, len(main_cases), BATCH):
         hist.run(ctx, "c13_driver.py", main_cases[b:b + BATCH], to_term, HEADER, CASE_T, key_fn, describe, nontrivial,
                  relation="C13.Corr.corr_codes (Model.step = HasTraits attribute access on every step)"
                           + (" [cases %d-%d]" % (b, min(len(cases), b + BATCH) - 1) if len(cases) > BATCH else ""),
                  tag="cases%d" % (b // BATCH))
     # classes with a trait_added listener (C13/CorrL.v: step_l, law with adoption of the listener's trait)
-    if not ctx.replay or "listener" in cases[0]:
+    if not ctx.replay or ("listener" in cases[0] and "objs" not in cases[0]):
         if ctx.replay:
             lcases = cases
         else:
@@ -578,4 +672,17 @@ def run(ctx):
         hist.run(ctx, "c13_driver.py", lcases, to_term_l, HEADER_L, CASE_T_L, key_fn, describe, nontrivial,
                  relation="C13.CorrL.corr_codes (Model.step_l = attribute access on classes with a trait_added listener)",
                  tag="listener")
+    # class-level operations at run time: add_class_trait (C13/CorrT.v)
+    if not ctx.replay or "objs" in cases[0]:
+        if ctx.replay:
+            tcases = cases
+        else:
+            tcases = classops_corpus() + [classops_history(rnd, ctx, maxlen)
+                                          for _ in range(200 if ctx.tier == "quick" else 3000)]
+            for c in tcases:
+                ctx.count("case:" + c["kind"])
+                ctx.count("probes(ops)", len(c["ops"]))
+        hist.run(ctx, "c13_driver.py", tcases, to_term_t, HEADER_T, CASE_T_T, key_fn, describe, nontrivial,
+                 relation="C13.CorrT.corr_codes (Model.add_class + step = add_class_trait and attribute access)",
+                 tag="classops")
     proof_gate(ctx, ok, log, PROPS)
